@@ -123,8 +123,19 @@ fn fail(msg: String) -> ! {
     panic!("VIOLATION checker-oracle {}", msg);
 }
 
+fn rep(s: &usize) -> usize { *s & !1 } // an arbitrary "representative": path validity must hold for any such function
+
 fn check_one(g: &G, dfs: bool, threads: usize, forest: bool, keep_going: bool) {
-    let tag = format!("[{} threads={} forest={} model={:?}]", if dfs { "dfs" } else { "bfs" }, threads, forest, g);
+    check_sym(g, dfs, threads, forest, keep_going, false)
+}
+
+fn check_sym(g: &G, dfs: bool, threads: usize, forest: bool, keep_going: bool, sym: bool) {
+    check_cfg(g, dfs, threads, forest, keep_going, sym, None)
+}
+
+// with a depth limit (like under the arbitrary "symmetry") only the validity of what is reported is checked, not exactness
+fn check_cfg(g: &G, dfs: bool, threads: usize, forest: bool, keep_going: bool, sym: bool, depth: Option<usize>) {
+    let tag = format!("[{} threads={} forest={} symmetry={} target_max_depth={:?} model={:?}]", if dfs { "dfs" } else { "bfs" }, threads, forest, sym, depth, g);
     let visited: Arc<Mutex<Vec<Vec<(usize, Option<usize>)>>>> = Arc::new(Mutex::new(Vec::new()));
     let v2 = visited.clone();
     let big = g.edges.len() > 100;
@@ -133,10 +144,15 @@ fn check_one(g: &G, dfs: bool, threads: usize, forest: bool, keep_going: bool) {
         let v = p.into_vec();
         v2.lock().unwrap().push(if big { v[v.len() - 1..].to_vec() } else { v })
     });
-    if dfs { analyse(g, b.spawn_dfs().join(), visited, tag, forest, keep_going) } else { analyse(g, b.spawn_bfs().join(), visited, tag, forest, keep_going) }
+    let b = match depth { Some(d) => b.target_max_depth(d), None => b };
+    if depth.is_some() {
+        return if dfs { analyse(g, b.spawn_dfs().join(), visited, tag, false, false, true) } else { analyse(g, b.spawn_bfs().join(), visited, tag, false, false, true) };
+    }
+    if sym { return analyse(g, b.symmetry_fn(rep).spawn_dfs().join(), visited, tag, false, false, true); }
+    if dfs { analyse(g, b.spawn_dfs().join(), visited, tag, forest, keep_going, false) } else { analyse(g, b.spawn_bfs().join(), visited, tag, forest, keep_going, false) }
 }
 
-fn analyse<C: Checker<G>>(g: &G, c: C, visited: Arc<Mutex<Vec<Vec<(usize, Option<usize>)>>>>, tag: String, forest: bool, keep_going: bool) {
+fn analyse<C: Checker<G>>(g: &G, c: C, visited: Arc<Mutex<Vec<Vec<(usize, Option<usize>)>>>>, tag: String, forest: bool, keep_going: bool, sym: bool) {
     if !c.is_done() { fail(format!("is_done false after join {}", tag)); }
     let reach = g.reachable();
     let valid_path = |p: &Vec<(usize, Option<usize>)>, what: &str| {
@@ -168,12 +184,12 @@ fn analyse<C: Checker<G>>(g: &G, c: C, visited: Arc<Mutex<Vec<Vec<(usize, Option
                 }
             }
         }
-        // exactness (a property without a discovery means the exploration ran to completion)
-        match kind {
+        // exactness (a property without a discovery means the exploration ran to completion); not under the arbitrary "symmetry"
+        if !sym { match kind {
             0 => if d.is_none() && reach.iter().any(|s| !tbl[*s]) { fail(format!("C02 always-property {} violated in a reachable state but no counterexample {}", NAMES[i], tag)); },
             2 => if d.is_none() && reach.iter().any(|s| tbl[*s]) { fail(format!("C02 sometimes-property {} satisfied in a reachable state but no example {}", NAMES[i], tag)); },
             _ => if forest && d.is_none() && g.has_unsatisfying_maximal_path(tbl) { fail(format!("C11 missed eventually-counterexample for {} on a forest {}", NAMES[i], tag)); },
-        }
+        } }
     }
     let vis = visited.lock().unwrap().clone();
     if g.edges.len() <= 100 { for p in &vis { valid_path(p, "C01 visitor path"); } }
@@ -244,6 +260,13 @@ fn verif_checker_oracle() {
         for dfs in [false, true] {
             for threads in 1..=3 {
                 check_one(g, dfs, threads, *forest, *keep);
+            }
+            if g.edges.len() <= 100 {
+                for d in 1..=3 { check_cfg(g, dfs, 1, *forest, *keep, false, Some(d)); }
+            }
+            if dfs && g.edges.len() <= 100 {
+                check_sym(g, true, 1, *forest, *keep, true);
+                check_sym(g, true, 2, *forest, *keep, true);
             }
         }
     }
